@@ -1,9 +1,13 @@
-use crate::{LonelyBlockHash, UnverifiedBlock};
+use crate::{LonelyBlockHash, UnverifiedBlock, delete_unverified_block};
 use ckb_channel::{Receiver, Sender};
+use ckb_error::InternalErrorKind;
 use ckb_logger::{debug, info};
 use ckb_shared::Shared;
+use ckb_shared::block_status::BlockStatus;
 use ckb_store::ChainStore;
+use ckb_types::packed::Byte32;
 use crossbeam::select;
+use dashmap::DashSet;
 use std::sync::Arc;
 
 pub(crate) struct PreloadUnverifiedBlocksChannel {
@@ -13,6 +17,7 @@ pub(crate) struct PreloadUnverifiedBlocksChannel {
     unverified_block_tx: Sender<UnverifiedBlock>,
 
     stop_rx: Receiver<()>,
+    is_pending_verify: Arc<DashSet<Byte32>>,
 }
 
 impl PreloadUnverifiedBlocksChannel {
@@ -21,12 +26,14 @@ impl PreloadUnverifiedBlocksChannel {
         preload_unverified_rx: Receiver<LonelyBlockHash>,
         unverified_block_tx: Sender<UnverifiedBlock>,
         stop_rx: Receiver<()>,
+        is_pending_verify: Arc<DashSet<Byte32>>,
     ) -> Self {
         PreloadUnverifiedBlocksChannel {
             shared,
             preload_unverified_rx,
             unverified_block_tx,
             stop_rx,
+            is_pending_verify,
         }
     }
 
@@ -53,7 +60,9 @@ impl PreloadUnverifiedBlocksChannel {
     fn preload_unverified_channel(&self, task: LonelyBlockHash) {
         let block_number = task.block_number_and_hash.number();
         let block_hash = task.block_number_and_hash.hash();
-        let unverified_block: UnverifiedBlock = self.load_full_unverified_block_by_hash(task);
+        let Some(unverified_block) = self.load_full_unverified_block_by_hash(task) else {
+            return;
+        };
 
         if let Some(metrics) = ckb_metrics::handle() {
             metrics
@@ -70,7 +79,7 @@ impl PreloadUnverifiedBlocksChannel {
         }
     }
 
-    fn load_full_unverified_block_by_hash(&self, task: LonelyBlockHash) -> UnverifiedBlock {
+    fn load_full_unverified_block_by_hash(&self, task: LonelyBlockHash) -> Option<UnverifiedBlock> {
         let _trace_timecost = ckb_metrics::handle()
             .map(|metrics| metrics.ckb_chain_load_full_unverified_block.start_timer());
 
@@ -82,24 +91,56 @@ impl PreloadUnverifiedBlocksChannel {
             verify_callback,
         } = task;
 
-        let block_view = self
-            .shared
-            .store()
+        // Another copy of the same block, or its parent, may have failed verification and been
+        // deleted after this one was queued.  Treat it like the verify thread treats a block
+        // whose parent failed: drop what is left of it, mark it invalid, report it as failed.
+        let store = self.shared.store();
+        let loaded = store
             .get_block(&block_number_and_hash.hash())
-            .expect("block stored");
-        let block = Arc::new(block_view);
-        let parent_header = {
-            self.shared
-                .store()
-                .get_block_header(&parent_hash)
-                .expect("parent header stored")
+            .and_then(|block_view| {
+                store
+                    .get_block_header(&parent_hash)
+                    .map(|parent_header| (block_view, parent_header))
+            });
+        let (block_view, parent_header) = match loaded {
+            Some(loaded) => loaded,
+            None => {
+                let block_hash = block_number_and_hash.hash();
+                info!(
+                    "block {}-{} or its parent has been deleted before being preloaded",
+                    block_number_and_hash.number(),
+                    block_hash
+                );
+                if store.get_block_header(&block_hash).is_some() {
+                    delete_unverified_block(
+                        store,
+                        block_hash.clone(),
+                        block_number_and_hash.number(),
+                        parent_hash,
+                    );
+                }
+                self.shared
+                    .insert_block_status(block_hash.clone(), BlockStatus::BLOCK_INVALID);
+                self.is_pending_verify.remove(&block_hash);
+                if let Some(verify_callback) = verify_callback {
+                    verify_callback(Err(InternalErrorKind::Other
+                        .other(format!(
+                            "block {}-{} or its parent previously failed verification and has been deleted",
+                            block_number_and_hash.number(),
+                            block_hash
+                        ))
+                        .into()));
+                }
+                return None;
+            }
         };
+        let block = Arc::new(block_view);
 
-        UnverifiedBlock {
+        Some(UnverifiedBlock {
             block,
             switch,
             verify_callback,
             parent_header,
-        }
+        })
     }
 }
